@@ -924,6 +924,10 @@ class C18(Prop):
             yield f"pty rx {rng.randrange(10**6)} {n} {[0, 1, 5][i % 3]}", True
         for i, n in enumerate(sizes):
             yield f"pty tx {[0, 4, 16][i % 3]} {rng.randrange(10**6)} {n}", True
+        # bursts larger than the kernel tty buffer, in both directions (a non-blocking or partial write shows here)
+        for n, pad in ((32768, 0), (65536, 16)) + (((262144, 4),) if T else ()):
+            yield f"pty tx {pad} {rng.randrange(10**6)} {n}", True
+            yield f"pty rx {rng.randrange(10**6)} {n} 0", True
         if T:
             for pace in (0, 1, 2, 3, 4, 5):
                 yield f"pty rx {rng.randrange(10**6)} 8192 {pace}", True
